@@ -19,8 +19,17 @@ func HashName(label string, ha uint8, iter uint16, salt string) string {
 	}
 	wireSalt = wireSalt[:n]
 
+	// Fold the ASCII letters only: strings.ToLower also rewrites the octets of
+	// other letters when the name holds raw UTF-8.
+	lower := []byte(label)
+	for i, c := range lower {
+		if c >= 'A' && c <= 'Z' {
+			lower[i] = c + ('a' - 'A')
+		}
+	}
+
 	name := make([]byte, 255)
-	off, err := PackDomainName(strings.ToLower(label), name, 0, nil, false)
+	off, err := PackDomainName(string(lower), name, 0, nil, false)
 	if err != nil {
 		return ""
 	}
